@@ -22,6 +22,17 @@ type H struct {
 	Ctx   bool `json:"ctx,omitempty"`
 	Async bool `json:"async,omitempty"`
 	Yield int  `json:"yield"` // Gosched calls inside the critical section
+	// SeqFirst: the options are passed as Sequential(), Async() instead of
+	// Async(), Sequential().  The order of options is not part of the contract.
+	SeqFirst bool `json:"seq_first,omitempty"`
+}
+
+// asyncSeq returns the option list of an Async+Sequential handler.
+func (h H) asyncSeq() []eventbus.SubscribeOption {
+	if h.SeqFirst {
+		return []eventbus.SubscribeOption{eventbus.Sequential(), eventbus.Async()}
+	}
+	return []eventbus.SubscribeOption{eventbus.Async(), eventbus.Sequential()}
 }
 
 // OverlapCase: concurrent publishers against Sequential handlers.
@@ -109,7 +120,7 @@ func subscribeSeq(bus *eventbus.EventBus, h H, st *hstate) {
 	}
 	so := []eventbus.SubscribeOption{eventbus.Sequential()}
 	if h.Async {
-		so = append(so, eventbus.Async())
+		so = h.asyncSeq()
 	}
 	if h.Ctx {
 		eventbus.SubscribeContext(bus, func(ctx context.Context, e Ev) { body(ctx, e.ID) }, so...)
@@ -321,7 +332,7 @@ func runOrder(c *OrderCase, k *counters) *vkit.Outcome {
 			s.seen = append(s.seen, id)
 			s.mu.Unlock()
 		}
-		so := []eventbus.SubscribeOption{eventbus.Async(), eventbus.Sequential()}
+		so := h.asyncSeq()
 		if h.Ctx {
 			eventbus.SubscribeContext(bus, func(_ context.Context, e Ev) { body(e.ID) }, so...)
 		} else {
